@@ -71,11 +71,74 @@ Definition set_active_client (m : msg) (s : state) : state :=
   | _ => s
   end.
 
+(* [step] written out: the wake flag is the wake rule evaluated on the final state *)
+Definition step_old (s : state) (m : msg) : state * bool :=
+  match m with
+  | SetState c dn p ps cmds q =>
+      let s' := with_client c dn (upd_player p (handle_set_state ps cmds q)) s in
+      (s', state_updated s' None (Some p))
+  | UpdateContentItem c dn p upd =>
+      let s' := with_client c dn (upd_player p (handle_content_item_update upd)) s in
+      (s', state_updated s' None (Some p))
+  | SetNowPlayingClient c dn =>
+      let s1 := with_client c dn (fun x => x) s in
+      let s' := {| s_active := Some c; s_clients := s_clients s1 |} in
+      (s', state_updated s' None None)
+  | SetNowPlayingPlayer c dn p =>
+      let s' := with_client c dn
+                  (fun cl => set_active_player (Some p) (upd_player p (fun x => x) cl)) s in
+      (s', state_updated s' (Some c) None)
+  | UpdateClient c dn =>
+      let s' := with_client c dn (fun cl => set_dname (name_or dn (cl_dname cl)) cl) s in
+      (s', state_updated s' (Some c) None)
+  | RemoveClient c =>
+      match aget c (s_clients s) with
+      | None => (s, false)
+      | Some _ =>
+          let cls := adel c (s_clients s) in
+          if opt_beq N.eqb (s_active s) (Some c)
+          then let s' := {| s_active := None; s_clients := cls |} in
+               (s', state_updated s' None None)
+          else ({| s_active := s_active s; s_clients := cls |}, false)
+      end
+  | RemovePlayer c dn p =>
+      let r := remove_player p (the_client c dn s) in
+      let s' := put_client c (fst r) s in
+      if snd r then (s', state_updated s' (Some c) None) else (s', false)
+  | SetDefaultCommands c dn cmds =>
+      let s' := with_client c dn (set_cmds cmds) s in
+      (s', state_updated s' None None)
+  end.
+
+Lemma notify_flag s cl pl :
+  match notify s cl pl with Some _ => true | None => false end = state_updated s cl pl.
+Proof. unfold notify. destruct (state_updated s cl pl); reflexivity. Qed.
+
+Lemma step_eq s m : step s m = step_old s m.
+Proof.
+  unfold step. destruct m; cbn [step_w step_old fst snd]; try (rewrite notify_flag; reflexivity).
+  - destruct (aget c (s_clients s)); [|reflexivity].
+    destruct (opt_beq N.eqb (s_active s) (Some c)); cbn [fst snd]; [rewrite notify_flag|]; reflexivity.
+  - destruct (snd (remove_player p (the_client c dn s))); cbn [fst snd]; [rewrite notify_flag|]; reflexivity.
+Qed.
+
+(* every wake-up is the handler's last action: the listener runs in the final state *)
+Lemma notify_some s cl pl sw : notify s cl pl = Some sw -> sw = s.
+Proof. unfold notify. destruct (state_updated s cl pl); congruence. Qed.
+
+Lemma wake_is_final s m sw : snd (step_w s m) = Some sw -> sw = fst (step_w s m).
+Proof.
+  destruct m; cbn [step_w fst snd]; try apply notify_some.
+  - destruct (aget c (s_clients s)); [|discriminate].
+    destruct (opt_beq N.eqb (s_active s) (Some c)); cbn [fst snd]; [apply notify_some|discriminate].
+  - destruct (snd (remove_player p (the_client c dn s))); cbn [fst snd]; [apply notify_some|discriminate].
+Qed.
+
 Lemma step_fst s m :
   is_rc m = false ->
   fst (step s m) = set_active_client m (with_client (mclient m) (mdname m) (cstep m) s).
 Proof.
-  destruct m; intro H; try discriminate; try reflexivity.
+  rewrite step_eq. destruct m; intro H; try discriminate; try reflexivity.
   simpl. destruct (snd (remove_player p (the_client c dn s))); reflexivity.
 Qed.
 
@@ -257,7 +320,7 @@ Lemma R_step s rh m : R s rh -> R (fst (step s m)) (m :: rh).
 Proof.
   intros [Ha Hc]. destruct (is_rc m) eqn:Hm.
   - (* remove client *)
-    destruct m; try discriminate. cbn [step].
+    destruct m; try discriminate. rewrite step_eq. cbn [step_old].
     pose proof (Hc c) as Hcc.
     destruct (aget c (s_clients s)) as [cl|] eqn:G.
     + assert (Hcl : forall c0, crel (aget c0 (adel c (s_clients s))) (epoch c0 (RemoveClient c :: rh))).
